@@ -11,6 +11,10 @@ solution objects, and the closure's lists (series_boundaries, series_data) are i
   * precision independence: the value at caller precision q is the correct rounding of the value at full working precision.
 Props/C34.lean proves the positive part (off boundaries / inside the stored range) and REFUTES full history independence at
 segment boundaries (get_series: bisect is left-closed but the extension loop exits on x <= xb).
+Vector systems beyond the oscillator: DECOUPLED systems of 2-4 scalar problems of the proved families from one x0 (worker kind 'dec'),
+one component with a huge last Taylor coefficient, the others with tiny ones, every sign pattern and every position, each system run
+in both component orders with the same plan; component i of every value is decided against the exact solution of scalar problem i,
+so a step size that is not governed by the least smooth component (whatever its position or the sign of its coefficients) is seen.
 """
 import json, random
 from fractions import Fraction
@@ -31,6 +35,17 @@ ASSUMPTIONS = [
     "zero; those inputs are reported under the site odefun[accuracy,explicit-tol,top-taylor-coefficient-zero]",
     "problems: y' = a*y (|a| <= 3), harmonic oscillator (w <= 4), y' = -y^2 (y0 > 0), rational data, x0 and query points dyadic, "
     "x - x0 <= 4; the right-hand side is evaluated by mpmath at the precision ode_taylor sets",
+    "decoupled vector systems y_i' = f_i(x, y_i), i < m, 2 <= m <= 4, every f_i from the scalar families above (lin with |a| <= 8 here, "
+    "riccati, ricx) with the common x0: component i of the solution of the system IS the solution of scalar problem i (the system's "
+    "right-hand side is locally Lipschitz, so its solution is unique, and the tuple of scalar solutions solves it), hence it is decided "
+    "against solRef of problem i with the same accuracy clause; explicit-tolerance inputs are reported under odefun[accuracy,explicit-tol] "
+    "(or the top-taylor-coefficient-zero site when a component whose last Taylor coefficient at x0 is exactly zero would have needed a "
+    "smaller first step than the other components enforce, decided from the exact coefficients c_(n-1), c_n), default-tolerance inputs "
+    "under odefun[accuracy,decoupled-system]",
+    "a non-finite returned value violates the accuracy clause; a returned value of magnitude above 2^(E+200), where 2^E is an elementary "
+    "bound of the exact solution (|y0| e^(|a|(x-x0)) for lin, y0 for riccati/ricx, |c0|(1+w) + |s0|(1+1/w) for osc), is declared a "
+    "violation by the harness without asking the exact checker (which would have to expand 2^e); a non-zero value below 2^-4000 is "
+    "left undecided",
     "history independence is checked bit-exactly on the returned values (same x, same caller precision) and on the closure's "
     "series_boundaries list; the full working-precision value is observed by calling the interpolant with mp.prec = workprec + 8",
     "the quantifier over problems/histories is sampled; the exact solutions and the store logic (prefix property, unique segment off "
@@ -57,13 +72,132 @@ def gen_ricx(r):
     return {"ode": "ricx", "c": rtok(c), "x0": rtok(x0), "y0": rtok(Fraction(r.randint(1, 12), r.choice([1, 2, 4, 3])))}
 
 
-def case_ode(r, st, quick, explicit=False):
+# ---- decoupled vector systems (components of different scales and signs, each with a proved scalar reference) ---------
+
+_SMALL = [Fraction(1, 64), Fraction(1, 32), Fraction(1, 16), Fraction(1, 100), Fraction(3, 64), Fraction(1, 8)]
+
+
+def gen_part(r, role, x0):
+    """one scalar problem (without x0) for a component of a decoupled system.
+       role 'rough' : large last Taylor coefficient (of either sign): this component must govern the step size;
+       role 'smooth': tiny last Taylor coefficient (of either sign): its own radius estimate is capped at 1;
+       role 'any'   : the data of the scalar classes"""
+    k = r.choice(["lin", "riccati", "ricx"])
+    sgn = r.choice([1, -1])
+    if role == "any":
+        d = gen_ode(r) if k != "ricx" else gen_ricx(r)
+        while d["ode"] == "osc":
+            d = gen_ode(r)
+        if d["ode"] == "ricx":      # keep c <= x0 relative to the system's x0
+            d["c"] = rtok(x0 - (Fraction(d["x0"]) - Fraction(d["c"])))
+        d = dict(d); d.pop("x0")
+        return d
+    if k == "lin":
+        if role == "rough":
+            return {"ode": "lin", "a": rtok(sgn * Fraction(r.choice([4, 5, 6, 8, 8]), 1)),
+                    "y0": rtok(r.choice([1, -1]) * Fraction(r.choice([1, 2, 5, 7]), r.choice([1, 2])))}
+        return {"ode": "lin", "a": rtok(sgn * Fraction(r.choice([1, 1, 2]), r.choice([3, 4, 8]))),
+                "y0": rtok(r.choice([1, -1]) * r.choice([Fraction(1), Fraction(1, 64), Fraction(5), Fraction(3, 2), Fraction(1, 100)]))}
+    y0 = Fraction(r.randint(2, 12), r.choice([1, 1, 2])) if role == "rough" else r.choice(_SMALL)
+    if k == "riccati":
+        return {"ode": "riccati", "y0": rtok(y0)}
+    c = x0 if r.random() < 0.25 else x0 - Fraction(r.randint(1, 16), 8)
+    return {"ode": "ricx", "c": rtok(c), "y0": rtok(y0)}
+
+
+def gen_dec(r):
+    """2-4 decoupled scalar problems from one x0: exactly one 'rough' component at a random position, the others smooth (mostly) or
+    arbitrary, so that the last Taylor coefficients differ by many orders of magnitude and in sign between the components"""
+    x0 = Fraction(r.randint(-16, 16), 8)
+    m = r.choice([2, 2, 2, 3, 3, 4])
+    roles = ["rough"] + [r.choice(["smooth", "smooth", "smooth", "any"]) for _ in range(m - 1)]
+    parts = [gen_part(r, role, x0) for role in roles]
+    pos = r.randrange(m)
+    parts[0], parts[pos] = parts[pos], parts[0]
+    return {"ode": "dec", "x0": rtok(x0), "parts": parts}
+
+
+def dec_reversed(ode):
+    return dict(ode, parts=list(reversed(ode["parts"])))
+
+
+def taylor_tail(part, x0, n):
+    """exact Taylor coefficients (c_{n-1}, c_n) at x0 of the solution of the scalar problem `part`"""
+    k = part["ode"]
+    y0 = Fraction(part["y0"])
+    if k == "lin":
+        a = Fraction(part["a"])
+        f = 1
+        for j in range(2, n):
+            f *= j
+        return y0 * a ** (n - 1) / f, y0 * a ** n / (f * n)
+    if k == "riccati":
+        return (-1) ** (n - 1) * y0 ** n, (-1) ** n * y0 ** (n + 1)
+    # ricx: y = 1/(A + B u + u^2), u = x - x0, A = 1/y0, B = 2 (x0 - c)
+    A = 1 / y0
+    B = 2 * (Fraction(x0) - Fraction(part["c"]))
+    g2, g1 = Fraction(0), 1 / A
+    for _ in range(n):
+        g2, g1 = g1, -(B * g1 + g2) / A
+    return g2, g1
+
+
+def sol_log2_bound(ode, c, dx):
+    """an integer E with |component c of the exact solution at x0 + dx| < 2^E (dx >= 0): used only to decide absurdly large returned
+    values (|y| > 2^(E+200)) without expanding them exactly"""
+    def bl(q):
+        q = abs(Fraction(q))
+        return int(q.numerator // q.denominator + 1).bit_length()
+    k = ode["ode"]
+    if k == "dec":
+        return sol_log2_bound(ode["parts"][c], 0, dx)
+    if k == "lin":          # |y0| e^(|a| dx), e^z <= 2^(1.4427 z)
+        z = abs(Fraction(ode["a"])) * max(Fraction(dx), 0) * Fraction(14427, 10000)
+        return bl(ode["y0"]) + int(z) + 2
+    if k == "osc":          # |y0| <= |c0| + |s0/w|, |y1| <= |c0 w| + |s0|
+        w, c0, s0 = abs(Fraction(ode["w"])), abs(Fraction(ode["c0"])), abs(Fraction(ode["s0"]))
+        return bl(c0 * (1 + w) + s0 * (1 + 1 / w))
+    return bl(ode["y0"])    # riccati, ricx: 0 < y <= y0 on [x0, oo)
+
+
+def dec_profile(ode, n, tol_prec):
+    """which component should govern the first step (smallest radius estimate tol/|c_n| -> largest |c_n|), the sign of its last
+    coefficient, whether a component whose last coefficient is exactly zero would have needed a smaller step (judged by c_{n-1})"""
+    import math
+    x0 = Fraction(ode["x0"])
+    tails = [taylor_tail(p, x0, n) for p in ode["parts"]]
+
+    def rad(c, m):
+        if c == 0:
+            return 1.0
+        c = abs(c)
+        lg = -tol_prec - (math.log2(c.numerator) - math.log2(c.denominator))
+        return min(1.0, 2.0 ** (lg / m))
+    rs = [rad(c, n) for _, c in tails]
+    dom = min(range(len(rs)), key=lambda i: rs[i])
+    r_used = rs[dom]
+    zero_dominates = any(c == 0 and rad(c1, n - 1) < 0.75 * r_used for c1, c in tails)
+    smax = max(range(len(tails)), key=lambda i: tails[i][1])
+    return {"dominant": dom, "dominant_sign": "neg" if tails[dom][1] < 0 else "pos", "radius": r_used,
+            "second_radius": sorted(rs)[1] if len(rs) > 1 else r_used, "signed_max_is_dominant": smax == dom,
+            "zero_dominates": zero_dominates}
+
+
+def case_ode(r, st, quick, explicit=False, dec=None):
     """explicit=True: the explicit-tolerance class (tol = 2^-t, 20 <= t <= prec - 10), mostly nonlinear right-hand sides"""
-    ode = gen_ode(r)
+    if dec is not None:
+        # decoupled vector system (given, so that the same plan can be run on a permutation of the components); mostly explicit tolerance,
+        # where the requested tolerance is decided literally and the known first-segment defect is absent
+        ode = dec
+        explicit = r.random() < 0.7
+    else:
+        ode = gen_ode(r)
     prec = r.choice([30, 53, 53, 64, 100, 150] if quick else [30, 53, 64, 100, 150, 200, 300])
     if explicit:
         k = r.random()
-        if k < 0.45:
+        if dec is not None:
+            pass
+        elif k < 0.45:
             while ode["ode"] != "riccati":
                 ode = gen_ode(r)
         elif k < 0.8:
@@ -74,6 +208,9 @@ def case_ode(r, st, quick, explicit=False):
     xmax = x0 + span
     t = {"kind": "odefun", "ode": ode, "prec": prec, "xmax": rtok(xmax), "vector_form": ode["ode"] != "osc" and r.random() < 0.3,
          "timeout": 30 if quick else 180}
+    if dec is not None:
+        t["vector_form"] = False        # a 'dec' system is a vector system by construction
+        t["timeout"] = 30 if quick else 90
     tol_exp = None
     if r.random() < 0.25:
         tol_exp = r.choice([10, 20, prec // 2, prec - 5])
@@ -108,9 +245,15 @@ def case_ode(r, st, quick, explicit=False):
     t["queries"] = queries; t["orders"] = orders
     st.note("ode", ode["ode"]); st.note("prec", prec); st.note("tol", "default" if tol_exp is None else "explicit")
     st.note("boundary_queries", sum(1 for q in queries if isinstance(q[0], list)))
-    ot = ode_tokens(ode)
-    op = "odevalx" if ode["ode"] == "ricx" else "odeval"
-    dim = 2 if ode["ode"] == "osc" else 1
+    if dec is not None:
+        # component c of the system is judged against the reference of ITS OWN scalar problem (component 0 of that problem)
+        comp = [dict(p, x0=ode["x0"]) for p in ode["parts"]]
+        comp = [("odevalx" if p["ode"] == "ricx" else "odeval", ode_tokens(p), 0) for p in comp]
+        st.note("dec_dim", len(comp)); st.note("dec_kinds", "+".join(p["ode"] for p in ode["parts"]))
+    else:
+        ot = ode_tokens(ode)
+        op = "odevalx" if ode["ode"] == "ricx" else "odeval"
+        comp = [(op, ot, c) for c in range(2 if ode["ode"] == "osc" else 1)]
     p_tol = prec if tol_exp is None else tol_exp
     # the explicit-tolerance class: the requested tolerance is decided literally (k = 0) and under its own site
     tol_class = tol_exp is not None and 20 <= tol_exp <= prec - 10
@@ -118,37 +261,82 @@ def case_ode(r, st, quick, explicit=False):
     if tol_class:
         st.note("explicit_tol_ode", ode["ode"]); st.note("explicit_tol_t/p", "%.1f" % (round(5.0 * tol_exp / prec) / 5))
 
+    pre = {}        # observations decided without the driver (non-finite or absurdly large values), filled by lines()
+
     def lines(res):
         out = {}
         h0 = res["hist"][0]
         for v in h0["vals"]:
             x, qp = res["queries"][v["i"]]
             xq = rtok(CO.dy_fraction(x))
-            for c, y in enumerate(v["v"]):
-                if is_dy(y):
-                    # the caller's rounding to qp bits adds at most 2^-qp relative: only full/at-least-prec observations are judged
-                    if qp >= prec:
-                        out["a%d_%d" % (v["i"], c)] = "%s %s %d %s %s %d 10" % (op, ot, c, xq, dy_tokens(y), p_tol)
-                        if tol_class:
-                            out["s%d_%d" % (v["i"], c)] = "%s %s %d %s %s %d 0" % (op, ot, c, xq, dy_tokens(y), p_tol)
+            # the caller's rounding to qp bits adds at most 2^-qp relative: only full/at-least-prec observations are judged
+            if qp < prec:
+                continue
+            for c, y in enumerate(v["v"][:len(comp)]):
+                names = ["a%d_%d" % (v["i"], c)] + (["s%d_%d" % (v["i"], c)] if tol_class else [])
+                if not is_dy(y):
+                    # nan / inf returned for an in-domain problem: no tolerance is met
+                    for nm in names:
+                        pre[nm] = "violates"
+                    continue
+                e = abs(int(y[0])).bit_length() + int(y[1])
+                if int(y[0]) != 0 and e > sol_log2_bound(ode, c, CO.dy_fraction(x) - x0) + 200:
+                    # |y| >= 2^199 * (a bound of |y_exact|): decided here, the exact checker is not asked to expand 2^e
+                    for nm in names:
+                        pre[nm] = "violates"
+                    continue
+                if int(y[0]) != 0 and e < -4000:
+                    for nm in names:
+                        pre[nm] = "undecided"
+                    continue
+                op, ot, ci = comp[c]
+                out[names[0]] = "%s %s %d %s %s %d 10" % (op, ot, ci, xq, dy_tokens(y), p_tol)
+                if tol_class:
+                    out[names[1]] = "%s %s %d %s %s %d 0" % (op, ot, ci, xq, dy_tokens(y), p_tol)
         return out
 
     def judge(res, ans):
+        ans = dict(ans, **pre)
         bad, und = [], []
+        deg = res.get("degree_used")
+        prof = None
+        if dec is not None:
+            # every value is a vector with one entry per component, each an exact finite number
+            for h in res["hist"]:
+                for v in h["vals"]:
+                    if len(v["v"]) != len(comp) or not all(is_dy(y) for y in v["v"]):
+                        bad.append("vector system of %d components: a returned value is not a vector of %d finite numbers" %
+                                   (len(comp), len(comp)))
+            if deg is not None and res.get("tol_prec_used") is not None:
+                prof = dec_profile(ode, int(deg), int(res["tol_prec_used"]))
+                st.note("dec_dominant_component", "%d of %d" % (prof["dominant"], len(comp)))
+                st.note("dec_dominant_last_coeff", "%s, %s" % (prof["dominant_sign"], "is the signed max" if prof["signed_max_is_dominant"]
+                                                               else "is NOT the signed max"))
+                st.note("dec_radius_ratio_2nd/1st", "%.0f" % min(64.0, prof["second_radius"] / prof["radius"]))
         # (1) accuracy
         nstrict = n10 = 0
+        worst = set()
         for k_, a in ans.items():
             if a == "violates":
+                worst.add(k_.split("_")[-1])
                 if tol_class:
                     nstrict += k_.startswith("s")
                     n10 += k_.startswith("a")
-                else:
+                elif dec is None:
                     bad.append("accuracy:%s" % k_)
             elif a != "ok":
                 und.append(k_)
+        if dec is not None and worst:
+            bad.append("accuracy[decoupled system %s]: component(s) %s miss the exact solution of their own scalar problem%s" %
+                       ("+".join(p["ode"] for p in ode["parts"]), ",".join(sorted(worst)),
+                        "" if prof is None else "; the first step should be governed by component %d (last Taylor coefficient %s)" %
+                        (prof["dominant"], "negative" if prof["dominant_sign"] == "neg" else "positive")))
         if nstrict or n10:
-            deg = res.get("degree_used")
             zero_top = ode["ode"] == "ricx" and ode["c"] == ode["x0"] and deg is not None and deg % 2 == 1
+            if dec is not None:
+                # the recorded defect (an exactly zero last coefficient is skipped by the radius estimate) acts on a system only when the
+                # skipped component would have needed a smaller first step than the one the other components enforce
+                zero_top = prof is not None and prof["zero_dominates"]
             bad.append("accuracy[explicit-tol%s]: %d observed value(s) differ from the exact solution by more than the requested "
                        "tol = 2^-%d (times max(|y|,1)), %d of them by more than 2^10*tol; mp.prec = %d, Taylor degree %s" %
                        (",top-taylor-coefficient-zero" if zero_top else "", nstrict,
@@ -191,11 +379,21 @@ def run(ctx):
     r = random.Random(ctx.seed)
     st = CO.Stats()
     quick = ctx.quick
-    n = 150 if quick else 1500
+    n = 150 if quick else 1400
     cases = [case_ode(r, st, quick) for _ in range(n)]
     # explicit-tolerance class from its own generator stream (the older stream is unchanged)
     r2 = random.Random(ctx.seed * 7919 + 34)
-    cases += [case_ode(r2, st, quick, explicit=True) for _ in range(60 if quick else 600)]
+    cases += [case_ode(r2, st, quick, explicit=True) for _ in range(60 if quick else 560)]
+    # decoupled vector systems from their own stream: every system is run in both component orders with the SAME plan
+    r3 = random.Random(ctx.seed * 104729 + 3434)
+    dcases = []
+    for _ in range(28 if quick else 100):
+        ode = gen_dec(r3)
+        k = r3.getrandbits(64)
+        dcases.append(case_ode(random.Random(k), st, quick, dec=ode))
+        dcases.append(case_ode(random.Random(k), st, quick, dec=dec_reversed(ode)))
+    # (thorough: run them first, the time budget cuts the tail of the list)
+    cases = cases + dcases if quick else dcases + cases
     info, fails = CO.run_cases(cases, ctx, nworkers=6, default_timeout=30.0, budget_s=100 if quick else 1500)
     # split the failing inputs by what failed, so that the order-dependence finding has its own stable site
     out = []
@@ -208,6 +406,9 @@ def run(ctx):
         elif "accuracy[explicit-tol]" in w:
             # the requested tolerance is missed where the known first-segment defect cannot act: never merged with other sites
             f = dict(f, site="calculus.odes.odefun[accuracy,explicit-tol]")
+        elif "decoupled system" in w and "order-dependence" not in w and "store:" not in w:
+            # default / other tolerance on a decoupled vector system: its own site (not merged with the scalar first-segment finding)
+            f = dict(f, site="calculus.odes.odefun[accuracy,decoupled-system]")
         elif "accuracy" in w and "order-dependence" not in w and "store:" not in w:
             f = dict(f, site="calculus.odes.odefun[accuracy]")
         out.append(f)
@@ -218,10 +419,11 @@ def run(ctx):
     cov = {
         "evaluations": evaluations,
         "distinct_nontrivial": info["distinct_nontrivial"],
-        "programs": 3,   # odefun scalar form, vector form (default and explicit tolerance / degree), get_series store
+        "programs": 4,   # odefun scalar form, vector form (default and explicit tolerance / degree), decoupled m-vector systems, get_series store
         "disagreements_checked": evaluations,
         "traces_validated_against_impl": sum(len(c["res"]["ok"]["hist"]) for c in cases if "ok" in c.get("res", {})),
-        "rule": "ODE with rational data from the three proved families; 4-12 queries (random dyadic points, exact boundary points of a scout run, "
+        "rule": "ODE with rational data from the proved families, or a decoupled system of 2-4 of them (one rough component, both component "
+                "orders); 4-12 queries (random dyadic points, exact boundary points of a scout run, "
                 "repeats; caller precision in {p, p-13, p+17, workprec+8}) evaluated in 4 orders on fresh solution objects; non-trivial = all "
                 "histories ran and every judged value was decided by the Lean checker",
         "cases": s, "undecided": s.get("undecided", 0),
